@@ -212,6 +212,18 @@ CLAIMED = {
             'umi_counter.most_common tie order for distance > 0 and the pooling_method 1 assignment block are not under contract; '
             'pysam flag/tag setters through the record stub; Molecule._add_fragment span bookkeeping not under contract.',
             '5/C06'),
+    'C08': ('Partial (see DESIGN section 7): the repository-side obligations that make "each molecule is written by exactly one '
+            'job, the one whose bin contains its cut site" hold. Loop-body contract on the real run_tagging_task (region mode): an '
+            'arbitrary molecule is written - once, itself - iff its first site-bearing fragment\'s site lies on the task\'s contig '
+            'inside [start, end); the tiling of C17 with the stronger margin clause (every fetch window reaches exactly fragment_size '
+            'beyond its bin unless the region border / a blacklisted interval is nearer); bp_chunked emits every task in exactly one '
+            'chunk (counting abstraction); run_tagging_tasks keeps a job\'s output iff any of its tasks wrote a molecule.',
+            'NOT decided: equality of flags and molecule-level tags between a parallel and a serial run (a two-run hyperproperty; '
+            'it needs that grouping is a function of the fetched fragment multiset - argued from C06/C07 contracts - and pysam fetch '
+            'returning all mates of owned fragments, A4), worker completion orders (A6), merge (A4); the emission-order premise of '
+            'the stop criterion is assumed; uniqueness of the owning bin follows from the sweep-cursor tiling of C17 (argued, not a '
+            'discharged lemma).',
+            '5/C08, section 7'),
 }
 
 NOT_YET = 'check not built yet (framework under construction; see DESIGN.md section 5)'
